@@ -1117,7 +1117,12 @@ impl Property for C11 {
                         q: false,
                         items: vec![PItem::E(Expr::Str("AB".into())), PItem::Semi],
                     }];
-                    l.push(Stmt::ListCmd(None, None));
+                    // ... and stays where it is when the range holds no line
+                    l.push(match rng.below(4) {
+                        0 => Stmt::ListCmd(Some(Target::Abs(65500)), Some(Target::Abs(65529))),
+                        1 => Stmt::ListCmd(Some(Target::Abs(65529)), None),
+                        _ => Stmt::ListCmd(None, None),
+                    });
                     l.extend(print_line(rng));
                     Step::Direct(l)
                 }
